@@ -156,8 +156,8 @@ func TestCredentialHistories(t *testing.T) {
 		// zero leaves the cached user data (old permissions, Active) in force
 		multiLoginClass := func() (avoid bool) {
 			if logins >= 2 {
-				vk.CountExcluded(kMultiLg)
 				if excluded(kMultiLg) {
+					vk.CountExcluded(kMultiLg)
 					c.Label("admin-change-with-2-logins-avoided")
 					return true
 				}
@@ -209,8 +209,8 @@ func TestCredentialHistories(t *testing.T) {
 				}
 				if cr.txID != "" && db != cr.txDB {
 					// known finding: a transaction keeps its database while the session's selection moves on
-					vk.CountExcluded(kTxSwite)
 					if excluded(kTxSwite) {
+						vk.CountExcluded(kTxSwite)
 						c.Label("switch-with-open-tx-avoided")
 						return
 					}
